@@ -606,7 +606,7 @@ fn run_hist(programs: &[Vec<Call>], schedule: &[usize]) -> Value {
     }
     let mut turns = Vec::new();
     let mut okay = sc.quiesce();
-    let mut go = |t: usize, turns: &mut Vec<Value>| -> bool {
+    let go = |t: usize, turns: &mut Vec<Value>| -> bool {
         match sc.grant(t) {
             Ok(Some((c, s))) => {
                 turns.push(json!([t, c, s, sh.counter.load(Ordering::SeqCst)]));
@@ -938,7 +938,7 @@ fn exhaustive_sets(tier: Tier) -> Vec<(&'static str, Vec<Vec<Call>>)> {
             "E2",
             vec![
                 vec![Src(a.clone()), Map(1, (0, 0))],
-                vec![Map(2, (0, 0)), Collect(2, (1, 0))],
+                vec![Map(2, (0, 0))],
                 vec![Collect(0, (0, 0))],
             ],
         ),
@@ -959,6 +959,14 @@ fn exhaustive_sets(tier: Tier) -> Vec<(&'static str, Vec<Vec<Call>>)> {
         ),
     ];
     if tier == Tier::Thorough {
+        v.push((
+            "E2b",
+            vec![
+                vec![Src(b.clone()), Map(1, (0, 0))],
+                vec![Map(2, (0, 0)), Collect(2, (1, 0))],
+                vec![Collect(0, (0, 0))],
+            ],
+        ));
         v.push((
             "E5",
             vec![
@@ -1015,7 +1023,8 @@ fn generate(seed: u64, tier: Tier, em: &mut Emitter) {
     let n_stress = if tier == Tier::Thorough { 600 } else { 60 };
     for i in 0..n_stress {
         let n = if tier == Tier::Thorough { 2 + (i % 3) } else { 4 };
-        let programs = gen_stress(&mut rng, n, 10 + rng.below(30) as usize);
+        let ncalls = 10 + rng.below(30) as usize;
+        let programs = gen_stress(&mut rng, n, ncalls);
         let total_inserts: usize = programs.iter().flatten().map(Call::inserts).sum();
         let nt = programs.iter().filter(|p| !p.is_empty()).count() >= 2 && total_inserts >= 4;
         em.case("stress", json!([n, programs_json(&programs)]), nt, &["stress"]);
